@@ -1,8 +1,10 @@
 """E5: suspension-point injector for the single-process (asyncio) server.
 
 In one server process a request only gives way to other requests where it
-awaits `to_thread(...)` (loading a member, updating a member).  Creates and
-deletes run inline.  So the interleavings of a request R with one other
+awaits `to_thread(...)` (loading a member, updating a member) and where it
+reads its request body (on the aiohttp front end the body may arrive later than
+the head; `xandikos.webdav._readBody` is the one place bodies are read).
+Creates and deletes run inline.  So the interleavings of a request R with one other
 request W are exactly: W runs to completion at one of R's suspension points.
 This module enumerates them: `xandikos.web.to_thread` is replaced for the
 duration of R by a coroutine that counts the suspension points and, at the
@@ -24,26 +26,53 @@ class Injector:
         self.count = 0
         self.other_response = None
         self.labels = []
+        self._in_other = False
+
+    async def _inject(self):
+        # the other request runs to completion; its own suspension points are not points of the outer request
+        self._in_other = True
+        try:
+            self.other_response = await handle(self.app, *self.other)
+        finally:
+            self._in_other = False
 
     async def to_thread(self, func, *a, **kw):
+        if self._in_other:
+            return func(*a, **kw)
         k = self.count
         self.count += 1
         self.labels.append(getattr(func, "__name__", repr(func)))
         if self.other is not None and k == self.inject_at and self.other_response is None:
-            self.other_response = await handle(self.app, *self.other)
+            await self._inject()
         return func(*a, **kw)
+
+    async def read_body(self, request):
+        """The request body arrives late: another request is handled completely before it is there."""
+        if self._in_other:
+            return await self._saved_read(request)
+        k = self.count
+        self.count += 1
+        self.labels.append("read-body")
+        if self.other is not None and k == self.inject_at and self.other_response is None:
+            await self._inject()
+        return await self._saved_read(request)
 
     def __enter__(self):
         import xandikos.web as web
+        import xandikos.webdav as webdav
 
         self._saved = web.to_thread
         web.to_thread = self.to_thread
+        self._saved_read = webdav._readBody
+        webdav._readBody = self.read_body
         return self
 
     def __exit__(self, *a):
         import xandikos.web as web
+        import xandikos.webdav as webdav
 
         web.to_thread = self._saved
+        webdav._readBody = self._saved_read
         return False
 
 
